@@ -590,18 +590,87 @@ def check_role(repo, res):
                             return True
         return False
 
+    # locals bound exactly once (flags such as `edge_first = v in edges`, bundled arguments such as
+    # `incidence = (v, u) if edge_first else (u, v)`, `direction = dict(direction=...)`)
+    once = {}
+    for st in own_statements(fn.node):
+        if isinstance(st, ast.Assign) and len(st.targets) == 1 and isinstance(st.targets[0], ast.Name):
+            once.setdefault(st.targets[0].id, []).append(st.value)
+    once = {k: v[0] for k, v in once.items() if len(v) == 1}
+
+    def flag(t):
+        """a test that is a once-bound local flag stands for the comparison it was bound to"""
+        seen = 0
+        while isinstance(t, ast.Name) and t.id in once and isinstance(once[t.id], (ast.Compare, ast.UnaryOp, ast.Name)) and seen < 4:
+            t = once[t.id]
+            seen += 1
+        return t
+
+    def ev(e, val):
+        """[(expression, valuation)]: e with once-bound bundles dereferenced and conditional expressions split"""
+        if isinstance(e, ast.Name) and e.id in once and isinstance(once[e.id], (ast.IfExp, ast.Tuple, ast.List, ast.Dict, ast.Call)) and (not isinstance(once[e.id], ast.Call) or getattr(once[e.id].func, "id", None) == "dict"):
+            return ev(once[e.id], val)
+        if isinstance(e, ast.IfExp):
+            t = flag(e.test)
+            k = ast.dump(t)
+            if k in val:
+                return ev(e.body if val[k][1] else e.orelse, val)
+            return ev(e.body, {**val, k: (t, True)}) + ev(e.orelse, {**val, k: (t, False)})
+        return [(e, val)]
+
+    def virtual_sites(c, tests):
+        """[(positional args, keyword map, extra tests)] for the call under every valuation of the conditional expressions
+        that feed its arguments (*bundle and **bundle spliced)"""
+        val0 = {ast.dump(flag(t)): (flag(t), b) for t, b in tests}
+        states = [([], {}, val0)]
+        for a in c.args:
+            nxt = []
+            for args, kws, val in states:
+                for e, v2 in ev(a.value if isinstance(a, ast.Starred) else a, val):
+                    if isinstance(a, ast.Starred):
+                        if not isinstance(e, (ast.Tuple, ast.List)):
+                            raise AnalysisError(f"from_bipartite_graph:{c.lineno}: cannot see what `*{unparse(a.value)}` holds (extractor does not recognise the code)")
+                        nxt.append((args + list(e.elts), kws, v2))
+                    else:
+                        nxt.append((args + [e], kws, v2))
+            states = nxt
+        for k in c.keywords:
+            nxt = []
+            for args, kws, val in states:
+                for e, v2 in ev(k.value, val):
+                    if k.arg is not None:
+                        nxt.append((args, {**kws, k.arg: e}, v2))
+                        continue
+                    if isinstance(e, ast.Call) and getattr(e.func, "id", None) == "dict" and not e.args and all(x.arg for x in e.keywords):
+                        items = [(x.arg, x.value) for x in e.keywords]
+                    elif isinstance(e, ast.Dict) and all(isinstance(x, ast.Constant) for x in e.keys):
+                        items = [(x.value, y) for x, y in zip(e.keys, e.values)]
+                    else:
+                        raise AnalysisError(f"from_bipartite_graph:{c.lineno}: cannot see what `**{unparse(k.value)}` holds (extractor does not recognise the code)")
+                    sub = [(dict(kws), v2)]
+                    for key, vexpr in items:
+                        sub = [({**kk, key: e2}, v3) for kk, vv in sub for e2, v3 in ev(vexpr, vv)]
+                    nxt += [(args, kk, vv) for kk, vv in sub]
+            states = nxt
+        return [(args, kws, list(val.values())) for args, kws, val in states]
+
     sites = directed_sites = 0
+    vsites = []
     for c in ast.walk(fn.node):
-        if not (isinstance(c, ast.Call) and getattr(c.func, "attr", "") == "add_node_to_edge" and len(c.args) >= 2):
+        if not (isinstance(c, ast.Call) and getattr(c.func, "attr", "") == "add_node_to_edge" and (len(c.args) >= 2 or any(isinstance(a, ast.Starred) for a in c.args))):
             continue
-        sites += 1
         loops, tests = enclosing(c)
-        e_arg, n_arg = c.args[0], c.args[1]
+        for args, kws, tests2 in virtual_sites(c, tests):
+            if len(args) >= 2:
+                vsites.append((c, loops, tests2, args, kws))
+    for c, loops, tests, c_args, c_kws in vsites:
+        sites += 1
+        e_arg, n_arg = c_args[0], c_args[1]
         ok = isinstance(e_arg, ast.Name) and in_edges_fact(e_arg.id, loops, tests)
         res.inst("T-ROLE", f"from_bipartite_graph:{c.lineno} endpoint roles decided by membership test", ok)
         if not ok:
             res.add(mk_finding(PROP, "T-ROLE", fn, c, f"from_bipartite_graph: `{unparse(c, 50)}` assumes which endpoint of the graph edge is the hyperedge from its position; for an undirected graph that depends on the order in which the vertices were inserted", role="role"))
-        dkw = [k.value for k in c.keywords if k.arg == "direction"] + list(c.args[2:3])
+        dkw = [v for k, v in c_kws.items() if k == "direction"] + list(c_args[2:3])
         if not dkw:
             continue
         directed_sites += 1
